@@ -5,6 +5,8 @@ package main
 import (
 	"fmt"
 	"math/rand"
+	"os"
+	"path/filepath"
 
 	"verifharness/core"
 )
@@ -42,6 +44,10 @@ func c16SmallFiles(tag string, maxLines int) [][]c16Line {
 }
 
 func runC16(ctx *core.Ctx) {
+	defer func() {
+		ctx.Wait()
+		os.RemoveAll("/dev/shm/" + filepath.Base(ctx.Scratch)) // see c16TreeBase
+	}()
 	c16Exhaustive(ctx)
 	c16OracleExhaustive(ctx)
 	ctx.Res.Exhaustive = true
@@ -66,7 +72,7 @@ func c16Exhaustive(ctx *core.Ctx) {
 						Services: []c16Service{{Name: "s", Environment: env,
 							EnvFiles: []c16EnvFile{{Path: "f1", Required: true}, {Path: "f2", Required: i%3 == 0}}}}}
 					ctx.Count("env-exhaustive-2files")
-					ctx.Add("c16.env", a)
+					ctx.Add("c16.resolve", a)
 				}
 			}
 		}
@@ -80,7 +86,7 @@ func c16Exhaustive(ctx *core.Ctx) {
 				a := c16Args{Files: map[string]c16Node{"f1": {Lines: f1}, "f2": {Lines: f2}}, Discard: j%2 == 0,
 					Services: []c16Service{{Name: "s", Labels: lab, LabelFiles: []string{"f1", "f2"}}}}
 				ctx.Count("labels-exhaustive-2files")
-				ctx.Add("c16.labels", a)
+				ctx.Add("c16.resolve", a)
 			}
 		}
 	}
@@ -111,8 +117,7 @@ func c16Exhaustive(ctx *core.Ctx) {
 				}
 				a.Services = []c16Service{svc}
 				ctx.Count("file-states-exhaustive")
-				ctx.Add("c16.env", a)
-				ctx.Add("c16.labels", a)
+				ctx.Add("c16.resolve", a)
 				if (x+y+z)%ctx.Pick(5, 1) == 0 {
 					ctx.Count("file-states-load")
 					la := a
@@ -266,10 +271,9 @@ func c16Random(ctx *core.Ctx) {
 		} else {
 			ctx.Count("random-valid")
 		}
-		ctx.Add("c16.env", a)
-		ctx.Add("c16.labels", a)
+		ctx.Add("c16.resolve", a)
 	}
-	n = ctx.Pick(8000, 250000)
+	n = ctx.Pick(6000, 250000)
 	for i := 0; i < n; i++ {
 		malformed := i%5 == 4
 		a := c16RandArgs(ctx.Rng, malformed, true)
@@ -421,7 +425,7 @@ func c16OracleExhaustive(ctx *core.Ctx) {
 
 func c16OracleRandom(ctx *core.Ctx) {
 	r := ctx.Rng
-	n := ctx.Pick(6000, 300000)
+	n := ctx.Pick(5000, 300000)
 	for i := 0; i < n; i++ {
 		nk := 3 + r.Intn(2)
 		keys := []string{"K1", "K2", "K3", "K4"}[:nk]
